@@ -513,6 +513,7 @@ FINDING_OF_SHAPE = {
     'round-axis-abs-asymmetric-bounds': 'F28',         # repaired (951959b)
     'round-axis-special-value-of-a-rounding-result': 'F30',   # repaired (b6c4d53)
     'float_to_fixed-zero-bound-format': 'C10-F5',
+    'elim_round-logb-of-zero': 'C10-F6',
     'round-axis-neg-zero-from-exact-op': 'F29',        # C14's F29 (`__neg__` / `__mul__` and the sign of zero) reaching `insert_round`
 }
 PER_SHAPE = 3
@@ -1790,7 +1791,11 @@ def typed_members(R, actx, others, extra=()):
 
 _UNARY_MINUS = re.compile(r'(^|[(=,\[\s])-\s*[a-z(]')
 
-def typed_shape_of(texts, body, want, got):
+def typed_shape_of(texts, body, want, got, args=(), label=''):
+    # C10-F6: `logb` of a ZERO operand under a context without infinities, its result then subtracted/added exactly: `elim_round`
+    # hoists the exact operation to REAL and drops the later rounding, although the source context had clamped logb(0)
+    if 'elim_round' in label and 'fp.logb(' in body and any(getattr(a, 'is_zero', lambda: False)() if not isinstance(a, (int, float)) else a == 0 for a in args):
+        return 'elim_round-logb-of-zero'
     if any(t.startswith('fp.MPFloatContext(') for t in texts): mp = True
     else: mp = False
     if want.replace('(n zero 0)', '(n zero Z)').replace('(n zero 1)', '(n zero Z)') == got.replace('(n zero 0)', '(n zero Z)').replace('(n zero 1)', '(n zero Z)'):
@@ -1993,7 +1998,7 @@ def typed_one(rep, R, tmp, ti, quick, lines, meta):
             rep.count('typed:orig:ok')
             if got != want:
                 if desc is None: desc = describe(xf)
-                viol(rep, typed_shape_of(texts, body, want, got),
+                viol(rep, typed_shape_of(texts, body, want, got, args, label),
                      f'{label}: arguments {args_src(args)} of formats {afs}: original returns {want[:70]} but the rewritten program gives {got[:70]}',
                      {'ctx_src': label.split('[')[1].split(']')[0] if '[' in label else texts[0], 'second_ctx': texts[1], 'strategy': label, 'operand': args_src(args),
                       'arg_formats': afs, 'outer': outer, 'original': want, 'lowered': got, 'program': text, 'lowered_program': desc, 'typed': True, 'aggregate': agg})
